@@ -222,8 +222,9 @@ theorem access_inv12 {s} (h : Inv12 s) (i) : Inv12 (access s i).1 := by
     rcases h.regStatus i hr with h1 | ⟨k', _, h1⟩
     · rw [hg] at h1; cases h1
     · exact hnadd k' h1
-  obtain ⟨f1, f2⟩ := h.frame (s' := setO s i { s.objs i with status := .uptodate, serial := r.serial,
-    val := r.val, refs := r.refs }) rfl rfl rfl
+  obtain ⟨f1, f2⟩ := h.frame
+    (s' := setO s i { s.objs i with status := .uptodate, serial := r.serial, val := r.val, refs := r.refs })
+    rfl rfl rfl
   refine ⟨h.str.setO_same i _ rfl rfl, h.creatingNil, h.opened, h.snapEq, h.failNone, ?_, ?_, h.addedReg,
     ?_, h.idle, ?_, ?_, h.commFresh, h.addedUncommitted, h.tidB, ?_, f1, f2, h.spsReal, h.spsNone,
     h.spsOrder, h.spsFlag⟩
@@ -253,9 +254,7 @@ theorem access_inv12 {s} (h : Inv12 s) (i) : Inv12 (access s i).1 := by
     · subst_vars; exact absurd hj (hnadd k')
     · exact h.addedSerial k' j hj
   · intro k' j hj
-    have hl : loadRec (setO s i { s.objs i with status := .uptodate, serial := r.serial,
-        val := r.val, refs := r.refs }) k' = loadRec s k' := rfl
-    rw [hl]
+    show ∃ r', loadRec s k' = some r' ∧ _
     simp only [setO]
     split
     · subst_vars
@@ -263,5 +262,371 @@ theorem access_inv12 {s} (h : Inv12 s) (i) : Inv12 (access s i).1 := by
       rw [hk] at this; cases this
       exact ⟨r, hr, fun _ => rfl, fun _ => ⟨rfl, rfl⟩⟩
     · exact h.coh k' j hj
+
+theorem join_fields (t : State) : (join t).objs = t.objs ∧ (join t).cache = t.cache ∧
+    (join t).added = t.added ∧ (join t).nextOid = t.nextOid ∧ (join t).sp = t.sp ∧
+    (join t).creating = t.creating ∧ (join t).begun = t.begun ∧ (join t).snap = t.snap ∧
+    (join t).committed = t.committed ∧ (join t).lastTid = t.lastTid ∧
+    (join t).registered = t.registered ∧ (join t).needsToJoin = false ∧
+    (t.sps = [] → (join t).sps = []) := by
+  unfold join; split
+  · simp
+  · simp_all
+
+/-- changing the payload of an object that is not up to date (outside the database, or changed) -/
+theorem Inv12.setPayload {s} (h : Inv12 s) (i : Nat) (o' : Obj)
+    (ho : o'.oid = (s.objs i).oid) (hj : o'.jar = (s.objs i).jar)
+    (hst : o'.status = (s.objs i).status) (hse : o'.serial = (s.objs i).serial)
+    (hnu : (s.objs i).status = .uptodate → (s.objs i).jar = false) : Inv12 (setO s i o') := by
+  have hobj : ∀ j, ((setO s i o').objs j).oid = (s.objs j).oid ∧ ((setO s i o').objs j).jar = (s.objs j).jar ∧
+      ((setO s i o').objs j).status = (s.objs j).status ∧ ((setO s i o').objs j).serial = (s.objs j).serial := by
+    intro j; simp only [setO]; split
+    · subst_vars; exact ⟨ho, hj, hst, hse⟩
+    · exact ⟨rfl, rfl, rfl, rfl⟩
+  obtain ⟨f1, f2⟩ := h.frame (s' := setO s i o') rfl rfl rfl
+  refine ⟨h.str.setO_same i o' ho hj, h.creatingNil, h.opened, h.snapEq, h.failNone, ?_, ?_, h.addedReg, ?_,
+    h.idle, ?_, ?_, h.commFresh, h.addedUncommitted, h.tidB, ?_, f1, f2, h.spsReal, h.spsNone,
+    h.spsOrder, h.spsFlag⟩
+  · intro j hj'; rw [(hobj j).1]; exact h.regOid j hj'
+  · intro j hj'; rw [(hobj j).2.2.1, (hobj j).1]; exact h.regStatus j hj'
+  · intro j hj'; rw [(hobj j).2.2.1] at hj'; exact h.changedReg j hj'
+  · intro j hj'; rw [(hobj j).1] at hj'; rw [(hobj j).2.2.2]; exact h.serial0 j hj'
+  · intro k j hj'; rw [(hobj j).2.2.2]; exact h.addedSerial k j hj'
+  · intro k j hj'
+    obtain ⟨r, hr, h1, h2⟩ := h.coh k j hj'
+    refine ⟨r, hr, ?_, ?_⟩
+    · rw [(hobj j).2.2.1, (hobj j).2.2.2]; exact h1
+    · intro hu
+      rw [(hobj j).2.2.1] at hu
+      simp only [setO]; split
+      · subst_vars
+        have := hnu hu
+        have hj2 := h.str.jarOid j
+        rw [h.str.cacheS k j hj'] at hj2
+        rw [this] at hj2; cases hj2
+      · exact h2 hu
+
+/-- `_p_changed = 1` on an up-to-date object of the connection -/
+theorem markChanged_inv12 {s} (h : Inv12 s) (i : Nat) (hg : (s.objs i).status ≠ .ghost) :
+    Inv12 (markChanged s i) := by
+  unfold markChanged
+  dsimp only
+  split
+  · exact h
+  rename_i hjar
+  split
+  · exact h
+  rename_i hch
+  have hjar' : (s.objs i).jar = true := by simpa using hjar
+  obtain ⟨k, hk⟩ : ∃ k, (s.objs i).oid = some k := by
+    have := h.str.jarOid i; rw [hjar'] at this
+    exact Option.isSome_iff_exists.1 this.symm
+  have hobj : ∀ j, ((setO s i { s.objs i with status := .changed }).objs j).oid = (s.objs j).oid ∧
+      ((setO s i { s.objs i with status := .changed }).objs j).serial = (s.objs j).serial ∧
+      ((setO s i { s.objs i with status := .changed }).objs j).val = (s.objs j).val ∧
+      ((setO s i { s.objs i with status := .changed }).objs j).refs = (s.objs j).refs ∧
+      (j ≠ i → ((setO s i { s.objs i with status := .changed }).objs j).status = (s.objs j).status) ∧
+      ((setO s i { s.objs i with status := .changed }).objs i).status = .changed := by
+    intro j; simp only [setO]; split
+    · subst_vars; simp
+    · rename_i hne; simp [hne]
+  have hstr1 : Str [] (setO s i { s.objs i with status := .changed }) := h.str.setO_same i _ rfl rfl
+  -- everything but the registration
+  have core : ∀ (t : State), t.objs = (setO s i { s.objs i with status := .changed }).objs →
+      t.cache = s.cache → t.added = s.added → t.nextOid = s.nextOid → t.sp = s.sp →
+      t.creating = s.creating → t.snap = s.snap → t.committed = s.committed →
+      t.lastTid = s.lastTid → t.opened = s.opened → t.fail = s.fail →
+      i ∈ t.registered → (∀ j ∈ s.registered, j ∈ t.registered) →
+      (∀ j ∈ t.registered, j = i ∨ j ∈ s.registered) → (t.needsToJoin = true → False) →
+      ((∀ u, s.sp = some u → ∀ p idx cr, SpEntry.real p idx cr ∈ t.sps → EntryWF u p idx cr) ∧
+        (s.sp = none → ∀ p idx cr, SpEntry.real p idx cr ∉ t.sps) ∧
+        t.sps.Pairwise entryLe ∧ SpEntry.abortSp false ∉ t.sps) → Inv12 t := by
+    intro t ho hc ha hn hsp hcr hsn hcm hlt hop hfl hireg hregs hregt hntj hsps
+    have hl : ∀ k', loadRec t k' = loadRec s k' := by
+      intro k'; unfold loadRec; rw [hsp, hsn]
+    obtain ⟨f1, f2⟩ := h.frame (s' := t) hc hcm hsp
+    refine ⟨hstr1.congr ho hc ha hn, by rw [hcr]; exact h.creatingNil, by rw [hop]; exact h.opened,
+      by rw [hsn, hcm]; exact h.snapEq, by rw [hfl]; exact h.failNone, ?_, ?_, ?_, ?_, ?_, ?_, ?_,
+      by rw [hcm, hn]; exact h.commFresh, by rw [ha, hcm]; exact h.addedUncommitted,
+      by rw [hcm, hlt]; exact h.tidB, ?_, f1, f2, by rw [hsp]; exact hsps.1, by rw [hsp]; exact hsps.2.1,
+      hsps.2.2.1, fun _ => hsps.2.2.2⟩
+    · intro j hj; rw [ho, (hobj j).1]
+      rcases hregt j hj with h1 | h1
+      · subst h1; rw [hk]; simp
+      · exact h.regOid j h1
+    · intro j hj; rw [ho, ha]
+      by_cases hji : j = i
+      · subst hji; left; exact (hobj j).2.2.2.2.2
+      · rw [(hobj j).2.2.2.2.1 hji, (hobj j).1]
+        rcases hregt j hj with h1 | h1
+        · exact absurd h1 hji
+        · exact h.regStatus j h1
+    · intro k' j hj; rw [ha] at hj; exact hregs j (h.addedReg k' j hj)
+    · intro j hj
+      rw [ho] at hj
+      by_cases hji : j = i
+      · subst hji; exact hireg
+      · rw [(hobj j).2.2.2.2.1 hji] at hj; exact hregs j (h.changedReg j hj)
+    · intro hh; exact absurd hh (fun h' => hntj h')
+    · intro j hj; rw [ho] at hj ⊢; rw [(hobj j).1] at hj; rw [(hobj j).2.1]; exact h.serial0 j hj
+    · intro k' j hj; rw [ha] at hj; rw [ho, (hobj j).2.1]; exact h.addedSerial k' j hj
+    · intro k' j hj
+      rw [hc] at hj
+      obtain ⟨r, hr, h1, h2⟩ := h.coh k' j hj
+      rw [hl, ho]
+      refine ⟨r, hr, ?_, ?_⟩
+      · intro _
+        rw [(hobj j).2.1]
+        by_cases hji : j = i
+        · subst hji; exact h1 hg
+        · apply h1; rw [← (hobj j).2.2.2.2.1 hji]; assumption
+      · intro hu
+        by_cases hji : j = i
+        · subst hji; rw [(hobj j).2.2.2.2.2] at hu; cases hu
+        · rw [(hobj j).2.2.2.2.1 hji] at hu
+          rw [(hobj j).2.2.1, (hobj j).2.2.2.1]; exact h2 hu
+  split
+  rotate_left
+  · rename_i hnone; rw [hk] at hnone; cases hnone
+  rename_i k0 hk0
+  have hkk : k = k0 := by rw [hk] at hk0; cases hk0; rfl
+  subst hkk
+  split
+  · -- already registered through `_added`
+    rename_i hadd
+    rw [Map.has_iff] at hadd
+    obtain ⟨j', hj'⟩ := Option.ne_none_iff_exists'.1 hadd
+    have hji : j' = i := h.str.inj j' i k (h.str.addedS k j' hj').1 hk
+    subst hji
+    have hreg := h.addedReg k j' hj'
+    have hnj : s.needsToJoin = true → False := by
+      intro hn
+      have := (h.idle hn).1
+      rw [this] at hreg; cases hreg
+    apply core _ rfl rfl rfl rfl rfl rfl rfl rfl rfl rfl rfl hreg (fun j hj => hj)
+      (fun j hj => Or.inr hj) hnj
+    exact ⟨h.spsReal, h.spsNone, h.spsOrder, h.spsFlag (by
+      cases hn : s.needsToJoin with
+      | true => exact absurd hn (fun h' => hnj h')
+      | false => rfl)⟩
+  · obtain ⟨j1, j2, j3, j4, j5, j6, j7, j8, j9, j10, j11, j12, _⟩ :=
+      join_fields (setO s i { s.objs i with status := .changed })
+    have jo : (join (setO s i { s.objs i with status := .changed })).opened = s.opened := by
+      unfold join; split <;> rfl
+    have jf : (join (setO s i { s.objs i with status := .changed })).fail = s.fail := by
+      unfold join; split <;> rfl
+    have js : (join (setO s i { s.objs i with status := .changed })).sps = (join s).sps := by
+      by_cases hn : s.needsToJoin = true
+      · simp [join, setO, hn]
+      · simp [join, setO, hn]
+    refine core { join (setO s i { s.objs i with status := .changed }) with
+      registered := (join (setO s i { s.objs i with status := .changed })).registered ++ [i] }
+      j1 j2 j3 j4 j5 j6 j8 j9 j10 jo jf ?_ ?_ ?_ ?_ ?_
+    · show i ∈ (join _).registered ++ [i]; simp
+    · intro j hj; show j ∈ (join _).registered ++ [i]; rw [j11]; simp [setO, hj]
+    · intro j hj
+      have : j ∈ (join (setO s i { s.objs i with status := .changed })).registered ++ [i] := hj
+      rw [j11] at this
+      simp only [setO, List.mem_append, List.mem_singleton] at this
+      exact this.symm
+    · intro hn
+      have : (join (setO s i { s.objs i with status := .changed })).needsToJoin = true := hn
+      rw [j12] at this; cases this
+    · show (∀ u, s.sp = some u → ∀ p idx cr, SpEntry.real p idx cr ∈
+          (join (setO s i { s.objs i with status := .changed })).sps → EntryWF u p idx cr) ∧ _
+      rw [js]
+      exact h.sps_join
+
+theorem mutate_inv12 {s} (h : Inv12 s) (i : Nat) (f : Obj → Option (Nat × List ObjId)) :
+    Inv12 (mutate s i f).1 := by
+  unfold mutate
+  dsimp only
+  split
+  · exact h
+  have ht := access_inv12 h i
+  have hng := access_ok_nonghost s i
+  generalize access s i = a at *
+  obtain ⟨t, e⟩ := a
+  cases e with
+  | some e => exact ht
+  | none =>
+    simp only at ht hng ⊢
+    have hng := hng trivial
+    split
+    · exact ht
+    rename_i p _
+    have hm := markChanged_inv12 ht i hng
+    refine hm.setPayload i { (markChanged t i).objs i with val := p.1, refs := p.2 } rfl rfl rfl rfl ?_
+    intro hu
+    rcases markChanged_obj t i with h1 | h1
+    · rw [h1.1] at hu ⊢
+      rcases h1.2 with h2 | h2
+      · exact h2
+      · rw [h2] at hu; cases hu
+    · rw [h1.2] at hu; cases hu
+
+theorem join_eq' (t : State) : join t = { t with needsToJoin := false, sps := (join t).sps } := by
+  unfold join
+  split
+  · rfl
+  · rename_i hn
+    have : t.needsToJoin = false := by simpa using hn
+    cases t; simp_all
+
+theorem opAdd_inv12 {s} (h : Inv12 s) (i : Nat) : Inv12 (opAdd s i).1 := by
+  unfold opAdd
+  dsimp only
+  split
+  · exact h
+  split
+  · exact h
+  rename_i hjar
+  have hjar' : (s.objs i).jar = false := by simpa using hjar
+  have hnone : (s.objs i).oid = none := by
+    have := h.str.jarOid i; rw [hjar'] at this
+    cases ho : (s.objs i).oid with
+    | none => rfl
+    | some k => rw [ho] at this; cases this
+  have js : (join (setO { s with nextOid := s.nextOid + 1 } i
+      { s.objs i with oid := some s.nextOid, jar := true })).sps = (join s).sps := by
+    by_cases hn : s.needsToJoin = true
+    · simp [join, setO, hn]
+    · simp [join, setO, hn]
+  rw [join_eq', js]
+  obtain ⟨sj1, sj2, sj3, sj4⟩ := h.sps_join
+  have hic : ∀ k', s.cache.get k' ≠ some i := by
+    intro k' hk'; have := h.str.cacheS k' i hk'; rw [hnone] at this; cases this
+  have hia : ∀ k', s.added.get k' ≠ some i := by
+    intro k' hk'; have := (h.str.addedS k' i hk').1; rw [hnone] at this; cases this
+  have hfreshc : s.cache.get s.nextOid = none := by
+    cases hc : s.cache.get s.nextOid with
+    | none => rfl
+    | some j => have := h.str.fresh j _ (h.str.cacheS _ j hc); omega
+  have hfresha : s.added.get s.nextOid = none := by
+    cases hc : s.added.get s.nextOid with
+    | none => rfl
+    | some j => have := h.str.fresh j _ (h.str.addedS _ j hc).1; omega
+  have hfreshk : ∀ j k', (s.objs j).oid = some k' → k' ≠ s.nextOid := by
+    intro j k' hj; have := h.str.fresh j k' hj; omega
+  constructor
+  · -- Str
+    constructor
+    · intro k' j hj
+      dsimp only [setO] at hj ⊢
+      have hji : j ≠ i := by intro he; subst he; exact hic k' hj
+      rw [if_neg hji]; exact h.str.cacheS k' j hj
+    · intro k' j hj
+      dsimp only [setO] at hj ⊢
+      rw [Map.get_set] at hj
+      split at hj
+      · cases hj; subst_vars; simp [hfreshc]
+      · have hji : j ≠ i := by intro he; subst he; exact hia k' hj
+        rw [if_neg hji]; exact h.str.addedS k' j hj
+    · intro j
+      dsimp only [setO]
+      split
+      · rfl
+      · exact h.str.jarOid j
+    · intro j k' hj
+      dsimp only [setO] at hj ⊢
+      rw [Map.get_set]
+      split at hj
+      · cases hj; subst_vars; right; left; simp
+      · have hne := hfreshk j k' hj
+        simp only [hne, if_false]
+        exact h.str.known j k' hj
+    · intro j k' hj
+      dsimp only [setO] at hj ⊢
+      split at hj
+      · cases hj; omega
+      · have := h.str.fresh j k' hj; omega
+    · intro j j' k' hj hj'
+      dsimp only [setO] at hj hj'
+      split at hj <;> split at hj'
+      · subst_vars; rfl
+      · cases hj; exact absurd rfl (hfreshk j' _ hj')
+      · cases hj'; exact absurd rfl (hfreshk j _ hj)
+      · exact h.str.inj j j' k' hj hj'
+    · exact Map.set_sorted h.str.addedSorted _ _
+  · exact h.creatingNil
+  · exact h.opened
+  · exact h.snapEq
+  · exact h.failNone
+  · intro j hj
+    dsimp only [setO] at hj ⊢
+    split
+    · simp
+    · rename_i hji
+      simp only [List.mem_append, List.mem_singleton] at hj
+      rcases hj with h1 | h1
+      · exact h.regOid j h1
+      · exact absurd h1 hji
+  · intro j hj
+    dsimp only [setO] at hj ⊢
+    simp only [List.mem_append, List.mem_singleton] at hj
+    by_cases hji : j = i
+    · subst hji; right; simp
+    · simp only [hji, if_false]
+      rcases hj with h1 | h1
+      · rcases h.regStatus j h1 with h2 | ⟨k', h2, h3⟩
+        · exact Or.inl h2
+        · right
+          refine ⟨k', h2, ?_⟩
+          rw [Map.get_set]
+          simp [hfreshk j k' h2, h3]
+      · exact absurd h1 hji
+  · intro k' j hj
+    dsimp only [setO] at hj ⊢
+    rw [Map.get_set] at hj
+    simp only [List.mem_append, List.mem_singleton]
+    split at hj
+    · cases hj; exact Or.inr rfl
+    · exact Or.inl (h.addedReg k' j hj)
+  · intro j hj
+    dsimp only [setO] at hj ⊢
+    simp only [List.mem_append, List.mem_singleton]
+    split at hj
+    · subst_vars; exact Or.inr rfl
+    · exact Or.inl (h.changedReg j hj)
+  · intro hn; cases hn
+  · intro j hj
+    dsimp only [setO] at hj ⊢
+    split at hj
+    · cases hj
+    · rename_i hji; rw [if_neg hji]; exact h.serial0 j hj
+  · intro k' j hj
+    dsimp only [setO] at hj ⊢
+    rw [Map.get_set] at hj
+    split at hj
+    · cases hj; simp; exact h.serial0 i hnone
+    · have hji : j ≠ i := by intro he; subst he; exact hia k' hj
+      rw [if_neg hji]; exact h.addedSerial k' j hj
+  · intro k' hk'
+    have := h.commFresh k' hk'
+    show k' < s.nextOid + 1
+    omega
+  · intro k' hk'
+    dsimp only [setO] at hk' ⊢
+    rw [Map.get_set] at hk'
+    split at hk'
+    · subst_vars
+      cases hc : s.committed.get s.nextOid with
+      | none => rfl
+      | some c => have := h.commFresh s.nextOid (by rw [hc]; simp); omega
+    · exact h.addedUncommitted k' hk'
+  · exact h.tidB
+  · intro k' j hj
+    dsimp only [setO] at hj ⊢
+    have hji : j ≠ i := by intro he; subst he; exact hic k' hj
+    rw [if_neg hji]
+    exact h.coh k' j hj
+  · exact h.owned
+  · intro t ht
+    have w := h.tmp t ht
+    exact ⟨w.pos, w.idx, w.idxCached, w.crIdx, w.recSerial⟩
+  · exact sj1
+  · exact sj2
+  · exact sj3
+  · intro _; exact sj4
 
 end Proofs.Conn
